@@ -286,8 +286,11 @@ impl BobState {
     }
 
     /// Consume self and get the [`SyncOutcome`] for this connection.
+    ///
+    /// If [`Self::run`] failed while a message was being processed, the progress up to that point
+    /// is lost and an empty outcome is returned.
     pub fn into_outcome(self) -> SyncOutcome {
-        self.progress.unwrap()
+        self.progress.unwrap_or_default()
     }
 }
 
